@@ -50,7 +50,7 @@ var (
 	vPort = []int64{1, 53, 80, 81, 442, 443, 444, 1000, 2000, 6881, 6885, 6889, 6890, 8080, 65534, 65535}
 )
 
-const nWildTmpl = 10
+const nWildTmpl = 13
 
 const (
 	kExact = iota
@@ -138,8 +138,16 @@ func wildPattern(tmpl int, sub, dom string) string {
 		return sub + "*." + dom
 	case 8:
 		return "*.*.*"
-	default:
+	case 9:
 		return "**." + dom
+	case 10:
+		// literal text on both sides of the star: a host too short to hold both pieces without
+		// overlap (sub.dom: "sub." and ".dom" would have to share the dot) must NOT match
+		return sub + ".*." + dom
+	case 11:
+		return "*." + firstLabel(dom) + ".*." + lastLabel(dom)
+	default:
+		return sub + "*" + sub + "." + dom
 	}
 }
 
